@@ -258,6 +258,75 @@ Definition enc_aux (a : aux_data) : bytes :=
 Definition md_insert (md : list (N * bytes)) (k : N) (v : bytes) : list (N * bytes) :=
   filter (fun kv => negb (fst kv =? k)) md ++ [(k, v)].
 
+(* ------------------------------------------------------------------ auxiliary data decoded from its wire forms *)
+
+(* AuxiliaryData::deserialize (serialization/metadata.rs:274-459) on the three wire forms, for inputs written with
+   definite lengths and the keys the library knows; components stay opaque (metadatum values, the native-script list):
+     Shelley     { label => metadatum }                      -> metadata only, prefer_alonzo_format = false
+     Shelley-MA  [ metadata, native scripts ]                -> metadata + native scripts, false
+     Alonzo      259({ ? 0: metadata, ? 1: native, ? 2: [v1 scripts], ? 3: [v2], ? 4: [v3] })  -> true,
+                 Plutus lists merged in the order V1, V2, V3 (merge_option_plutus_list)
+   A repeated metadata label is a DuplicateKey error. *)
+Inductive aux_wire :=
+| WShelley (md : list (N * bytes))
+| WShelleyMA (md : list (N * bytes)) (native : bytes)
+| WAlonzo (md : option (list (N * bytes))) (native : option bytes) (v1 v2 v3 : option (list bytes)).
+
+Fixpoint labels_nodup (seen : list N) (md : list (N * bytes)) : bool :=
+  match md with
+  | [] => true
+  | (k, _) :: t => negb (existsb (N.eqb k) seen) && labels_nodup (k :: seen) t
+  end.
+
+Definition enc_script_array (l : list bytes) : bytes :=
+  encode_head 4 (len l) ++ flat_map (fun b => encode_head 2 (len b) ++ b) l.
+
+Definition enc_wire (w : aux_wire) : bytes :=
+  match w with
+  | WShelley md => enc_metadata md
+  | WShelleyMA md ns => [130] ++ enc_metadata md ++ ns
+  | WAlonzo md ns v1 v2 v3 =>
+      encode_head 6 259 ++ encode_head 5 (opt64 md + opt64 ns + opt64 v1 + opt64 v2 + opt64 v3) ++
+      (match md with Some m => [0] ++ enc_metadata m | None => [] end) ++
+      (match ns with Some n => [1] ++ n | None => [] end) ++
+      (match v1 with Some l => [2] ++ enc_script_array l | None => [] end) ++
+      (match v2 with Some l => [3] ++ enc_script_array l | None => [] end) ++
+      (match v3 with Some l => [4] ++ enc_script_array l | None => [] end)
+  end.
+
+Definition scripts_of (v : lang) (o : option (list bytes)) : option (list script) :=
+  match o with Some l => Some (map (mk_script v) l) | None => None end.
+(* merge_option_plutus_list: the first list present, the later ones appended *)
+Definition merge_opt (a b : option (list script)) : option (list script) :=
+  match a, b with
+  | Some x, Some y => Some (x ++ y)
+  | Some x, None => Some x
+  | None, y => y
+  end.
+
+Definition decode_wire (w : aux_wire) : result aux_data :=
+  match w with
+  | WShelley md => if labels_nodup [] md then Ok (mk_aux (Some md) None None false) else Err
+  | WShelleyMA md ns => if labels_nodup [] md then Ok (mk_aux (Some md) (Some ns) None false) else Err
+  | WAlonzo md ns v1 v2 v3 =>
+      if (match md with Some m => labels_nodup [] m | None => true end)
+      then Ok (mk_aux md ns (merge_opt (merge_opt (scripts_of V1 v1) (scripts_of V2 v2)) (scripts_of V3 v3)) true)
+      else Err
+  end.
+
+(* the builder's auxiliary-data entry points as functions of the auxiliary data it holds *)
+(* set_metadata: clone the existing auxiliary data (or a new one) and replace its metadata *)
+Definition aux_set_metadata (cur : option aux_data) (md : list (N * bytes)) : aux_data :=
+  let a := match cur with Some a => a | None => aux_new end in
+  mk_aux (Some md) (a_native a) (a_plutus a) (a_prefer_alonzo a).
+(* add_metadatum (also reached by add_json_metadatum / add_json_metadatum_with_schema once the JSON text is converted):
+   insert into the existing metadata (or a new map), then set_metadata *)
+Definition aux_add_metadatum (cur : option aux_data) (k : N) (v : bytes) : aux_data :=
+  let md := match cur with
+            | Some a => match a_metadata a with Some md => md | None => [] end
+            | None => [] end in
+  aux_set_metadata cur (md_insert md k v).
+
 (* ------------------------------------------------------------------ the builder *)
 
 Section WithHash.
@@ -387,7 +456,8 @@ Inductive op :=
 | OpSetAux (a : aux_data)
 | OpRemoveAux
 | OpSetMetadata (md : list (N * bytes))
-| OpAddMetadatum (k : N) (v : bytes).
+| OpAddMetadatum (k : N) (v : bytes)        (* add_metadatum, add_json_metadatum[_with_schema] (converted value) *)
+| OpSetAuxDecoded (w : aux_wire).          (* set_auxiliary_data(AuxiliaryData::from_bytes(enc_wire w)); nothing when decoding fails *)
 
 Definition set_sub (b : builder) (k : sub) (ws : list witness) (n : N) : builder :=
   let m := mk_builder in
@@ -407,16 +477,19 @@ Definition add_extra_witness_datum (b : builder) (d : pdata) : builder :=
              (Some (match b_extra_datums b with Some l => l ++ [d] | None => [d] end))
              (b_script_data_hash b) (b_aux b).
 
-(* set_metadata: clone the existing auxiliary data (or a new one) and replace its metadata *)
-Definition set_metadata (b : builder) (md : list (N * bytes)) : builder :=
-  let a := match b_aux b with Some a => a | None => aux_new end in
-  set_aux b (Some (mk_aux (Some md) (a_native a) (a_plutus a) (a_prefer_alonzo a))).
-(* add_metadatum: insert into the existing metadata (or a new map), then set_metadata *)
-Definition add_metadatum (b : builder) (k : N) (v : bytes) : builder :=
-  let md := match b_aux b with
-            | Some a => match a_metadata a with Some md => md | None => [] end
-            | None => [] end in
-  set_metadata b (md_insert md k v).
+(* what an operation does to the auxiliary data held by the builder *)
+Definition aux_step (cur : option aux_data) (o : op) : option aux_data :=
+  match o with
+  | OpSetAux a => Some a
+  | OpRemoveAux => None
+  | OpSetMetadata md => Some (aux_set_metadata cur md)
+  | OpAddMetadatum k v => Some (aux_add_metadatum cur k v)
+  | OpSetAuxDecoded w => match decode_wire w with Ok a => Some a | _ => cur end
+  | _ => cur
+  end.
+
+Definition set_metadata (b : builder) (md : list (N * bytes)) : builder := set_aux b (Some (aux_set_metadata (b_aux b) md)).
+Definition add_metadatum (b : builder) (k : N) (v : bytes) : builder := set_aux b (Some (aux_add_metadatum (b_aux b) k v)).
 
 (* one operation; calc may fail (missing cost model), in which case the builder is unchanged *)
 Definition step (b : builder) (o : op) : builder * bool :=
@@ -430,6 +503,7 @@ Definition step (b : builder) (o : op) : builder * bool :=
   | OpRemoveAux => (set_aux b None, true)
   | OpSetMetadata md => (set_metadata b md, true)
   | OpAddMetadatum k v => (add_metadatum b k v, true)
+  | OpSetAuxDecoded w => (set_aux b (aux_step (b_aux b) o), true)
   end.
 
 (* run a history; the flags are the Ok/Err outcomes of the calc operations, in order *)
